@@ -87,6 +87,16 @@ def is_accepted_seq(seq, cfg):
 
 
 def replay_case(case):
+    if case.get("devs"):
+        data = bytes.fromhex(case["stream"])
+        devs = {int(k): v for k, v in case["devs"].items()}
+        base = case["base"]
+        c7 = dict(base); c7["protfilter"] = 7
+        full = item_sigs(run_reader(data, c7, stream=streams.DevStream(data, devs)))
+        c = dict(base); c["protfilter"] = case["mask"]
+        got = item_sigs(run_reader(data, c, stream=streams.DevStream(data, devs)))
+        want = [x for x in full if raw_class(x[0]) & case["mask"]]
+        return [] if got == want else [(f"filter_changes_framing|short_read|parsing={base['parsing']}", "")]
     data = bytes.fromhex(case["stream"])
     out, _, _ = judge(data, case["base"], case.get("accepted_seq", False))
     return [(k, d) for k, d in out]
@@ -95,6 +105,30 @@ def replay_case(case):
 def eval_block(block, acc):
     if block[0] == "bytes":
         it = ((d, None) for d in streams.iter_block(tuple(block[1]) if block[1][0] == "short" else ("pre", block[1][1], block[1][2])))
+    elif block[0] == "short":
+        # one deviation: the i-th stream call answered short; the 8 masks must still only filter
+        first = block[1]
+        for seq in [(first,)] + [(first, t) for t in streams.FRAME_TOKENS]:
+            data = streams.seq_bytes(seq)
+            for base in BASES[:3]:
+                c7 = dict(base); c7["protfilter"] = 7
+                ncalls = run_reader(data, c7).calls
+                for i in range(ncalls):
+                    devs = {i: 1}
+                    r7 = run_reader(data, c7, stream=streams.DevStream(data, devs))
+                    if r7.raised is not None or r7.horizon:
+                        continue
+                    full = item_sigs(r7)
+                    for mask in range(7):
+                        c = dict(base); c["protfilter"] = mask
+                        r = run_reader(data, c, stream=streams.DevStream(data, devs))
+                        acc.evaluations += 1
+                        acc.transitions += 1
+                        got = item_sigs(r)
+                        want = [x for x in full if raw_class(x[0]) & mask]
+                        if r.raised is None and not r.horizon and got != want:
+                            acc.violation(f"filter_changes_framing|short_read|parsing={base['parsing']}", {"stream": data.hex(), "tokens": list(seq), "base": base, "devs": {str(i): 1}, "mask": mask}, f"mask={mask} got={[x[0].hex()[:16] for x in got]} want={[x[0].hex()[:16] for x in want]}")
+        return
     elif block[0] == "long":
         it = ((streams.seq_bytes(s), s) for s in streams.long_seqs(streams.LONG_NEIGHBOURS))
     else:
@@ -124,6 +158,7 @@ def run_tier(tier, t0):
     blocks = [("bytes", list(b)) for b in streams.byte_blocks(L)]
     blocks += [("tokens", None, 0)] + [("tokens", f, k) for f in ALPHABET]
     blocks.append(("long",))
+    blocks += [("short", f) for f in streams.FRAME_TOKENS]
     acc = engine.sweep(blocks, eval_block)
     engine.finish(
         PROP, tier, acc, t0, replay_case,
